@@ -1,0 +1,16 @@
+//go:build verif
+
+package httpclientutil
+
+// Verification hook of the view-change client family (build tag `verif` only; add-only).
+
+import "net/http"
+
+// VerifVCSetTransport replaces the transport of the package's HTTP client (transactions to miners,
+// confirmations and smart-contract REST calls to sharders) and returns the previous one, so that a
+// harness can answer these requests in-process.
+func VerifVCSetTransport(rt http.RoundTripper) http.RoundTripper {
+	old := httpClient.Transport
+	httpClient.Transport = rt
+	return old
+}
